@@ -554,7 +554,14 @@ func (g *G) expr2(t Ty, depth int) *Expr {
 			if eq && !g.F.EqIntFloat {
 				g.noIll++ // both sides really have the same numeric type (int == float is quarantined)
 			}
-			l, r := g.Expr(tt, depth-1), g.Expr(tt, depth-1)
+			l := g.Expr(tt, depth-1)
+			if !eq && !g.F.StrOrder {
+				g.noIll++ // at most one side is ill-typed on purpose: two sides swapped to strings would be a string ordering (quarantined)
+			}
+			r := g.Expr(tt, depth-1)
+			if !eq && !g.F.StrOrder {
+				g.noIll--
+			}
 			if eq && !g.F.EqIntFloat {
 				g.noIll--
 			}
